@@ -429,7 +429,9 @@ func Run[C any](t *testing.T, p Prop[C]) {
 			}
 		})
 		cx.part.Exhaustive = names
-		cx.part.Counters["enumerated_cases_total"] += int64(i)
+		if cx.Shard == 0 {
+			cx.part.Counters["enumerated_cases_total"] += int64(i)
+		}
 		if failed {
 			return
 		}
